@@ -696,3 +696,27 @@ Proof.
     + destruct (M_filter ts); [congruence|cbn [length] in E; lia].
     + cbn [omap obind]. eexists. reflexivity.
 Qed.
+
+Lemma write_read_exact s ts out :
+  map_ok ts -> M_write s ts = Ok out ->
+  valid_scaler s = true ->
+  Forall (fun t : table => forallb printable (fst t) = true) ts ->
+  N.of_nat (length (M_filter ts)) <= header_maxTables ->
+  N.of_nat (length (M_filter ts)) < 4096 ->
+  file_size (M_filter ts) < 4294967296 ->
+  M_read_dir out = Ok (s, map toc_of (dir_of out)).
+Proof.
+  intros Hmap Hw Hs Hp Hn280 Hn Hsize.
+  destruct (M_write_unfold s ts out Hw) as [Hn1 ->].
+  rewrite b_dir by assumption. apply written_read; assumption.
+Qed.
+
+Lemma write_length s ts out :
+  map_ok ts -> M_write s ts = Ok out ->
+  N.of_nat (length (M_filter ts)) < 4096 ->
+  file_size (M_filter ts) < 4294967296 ->
+  N.of_nat (length out) = file_size (M_filter ts).
+Proof.
+  intros Hmap Hw Hn Hsize. destruct (M_write_unfold s ts out Hw) as [Hn1 ->].
+  rewrite b_length, cleared_total, file_size_eq; try assumption. reflexivity.
+Qed.
